@@ -99,6 +99,14 @@ def latestViolations (c : BandCfg) : List (Int × String) :=
 def allCells (c : BandCfg) : List (Nat × Nat × Int × Int × Int) :=
   c.maxPayload.flatMap fun (v, revs) => revs.flatMap fun (r, cells) => cells.map fun (d, m, n) => (v, r, d, m, n)
 
+/-- the cell the property's fallback rule selects: the tables of the requested protocol version if the band lists it, else
+those of "latest"; within them the requested revision if listed, else "latest" -/
+def maxPayloadCell (c : BandCfg) (ver rev : Nat) (dr : Int) : Option (Int × Int) :=
+  let byVer := (c.maxPayload.find? (·.1 == ver)).orElse fun _ => c.maxPayload.find? (·.1 == keyLatest)
+  byVer.bind fun (_, revs) =>
+    let byRev := (revs.find? (·.1 == rev)).orElse fun _ => revs.find? (·.1 == keyLatest)
+    byRev.bind fun (_, cells) => (cells.find? (·.1 == dr)).map fun (_, m, n) => (m, n)
+
 /-- `(0,0)` is the Regional Parameters' "N/A" (data-rate not available under this dwell-time), not a size -/
 def isNA (m n : Int) : Bool := m == 0 && n == 0
 
